@@ -27,12 +27,26 @@ func init() {
 // keyBuilder finds the function of the cache plugin that builds the message key: the function whose
 // result flows into the key argument of both the lookup and the store.
 func runC04(c *Ctx) {
-	p := c.P
 	c.rule("R1", "key layout: fixed header in which every input bit owns a bit, then the whole name, in a fresh private buffer", 37)
-	f := c.fn(relCachePlugin, "", "getMsgKey")
-	if f == nil {
+	f, keyRet := checkCacheKeyLayout(c)
+	if f == nil || keyRet == nil {
 		return
 	}
+	runC04rest(c, f, keyRet)
+}
+
+// checkCacheKeyLayout (C04-R1, C03-R8): bit-level injectivity of the cache key in the question.
+func checkCacheKeyLayout(c *Ctx) (*ssa.Function, *ssa.Return) {
+	f := c.fn(relCachePlugin, "", "getMsgKey")
+	if f == nil {
+		return nil, nil
+	}
+	return f, checkCacheKeyLayoutIn(c, f)
+}
+
+func checkCacheKeyLayoutIn(c *Ctx, f *ssa.Function) (result *ssa.Return) {
+	p := c.P
+	_ = p
 	// --- the returned non-empty key: conversion of a freshly made []byte
 	var keyRet *ssa.Return
 	var buf *ssa.MakeSlice
@@ -230,6 +244,11 @@ func runC04(c *Ctx) {
 		}
 	}
 
+	return keyRet
+}
+
+func runC04rest(c *Ctx, f *ssa.Function, keyRet *ssa.Return) {
+	p := c.P
 	// ---------------------------------------------------------------- R2
 	c.rule("R2", "a non-empty key is produced only for QR=0, opcode QUERY, exactly one question (guard in the key builder or at all its call sites)", 3)
 	gs := guardsOfInstr(keyRet)
